@@ -5,8 +5,10 @@ computes is the parameter `mask`.  `Gen.Layout.rotSuffix` is GENERATED; it may b
 Helper lemmas: PeroVerif/Lemmas/Assign.lean (may reuse PeroVerif/Lemmas/Decimal.lean).
 -/
 import PeroVerif.Model.Assign
+import PeroVerif.Model.Clip
 import PeroVerif.Lemmas.Decimal
 import PeroVerif.Lemmas.Assign
+import PeroVerif.Lemmas.Clip
 
 namespace C11
 open Asg Py
@@ -86,5 +88,51 @@ theorem pass_ids_nodup (rid : Str) (rots : List Nat) (placed : Nat → List Nat)
     (hr : rots.Nodup) (hp : ∀ rot ∈ rots, (placed rot).Nodup) :
     (passIds rid rots placed).Nodup :=
   passIds_nodup rot_suffix rid rots placed hr hp
+
+
+/-! ### Rectangular regions: clipping is a theorem, not a parameter -/
+open Clip
+
+/-- Segment clipping is exact: a parameter `t ∈ [0, 1]` of the segment lies in the clipped interval iff the point at
+`t` lies in the (closed) rectangle.  (Soundness and completeness of the Liang–Barsky intervals.) -/
+theorem clipSeg_exact (r : Rect) (p q : Pt) (t : Rat) (h0 : 0 ≤ t) (h1 : t ≤ 1) :
+    inRect r (lerp p q t) ↔ ∃ t0 t1, clipSeg r p q = some (t0, t1) ∧ t0 ≤ t ∧ t ≤ t1 :=
+  Clip.clipSeg_exact' r p q t h0 h1
+
+/-- The clipped interval is a sub-interval of `[0, 1]`. -/
+theorem clipSeg_range (r : Rect) (p q : Pt) (t0 t1 : Rat) (h : clipSeg r p q = some (t0, t1)) :
+    0 ≤ t0 ∧ t0 ≤ t1 ∧ t1 ≤ 1 :=
+  Clip.clipSeg_range' r p q t0 t1 h
+
+/-- Every vertex of every placed piece lies inside the region. -/
+theorem clip_in_rect (r : Rect) (pts : List Pt) :
+    ∀ piece ∈ clipPolyline r pts, ∀ v ∈ piece, inRect r v :=
+  Clip.clipPolyline_in_rect r pts
+
+/-- Every vertex of every placed piece lies on the detected baseline: it is the point at some parameter `t ∈ [0, 1]` of
+one of its segments. -/
+theorem clip_on_polyline (r : Rect) (pts : List Pt) :
+    ∀ piece ∈ clipPolyline r pts, ∀ v ∈ piece,
+      ∃ (i : Nat) (p q : Pt) (t : Rat), pts[i]? = some p ∧ pts[i + 1]? = some q ∧ 0 ≤ t ∧ t ≤ 1 ∧ v = lerp p q t :=
+  Clip.clipPolyline_on_polyline r pts
+
+/-- A baseline wholly inside the region (all its points, hence all its vertices) is placed unchanged, as one piece. -/
+theorem clip_inside_unchanged (r : Rect) (pts : List Pt) (hlen : 2 ≤ pts.length) (hin : ∀ v ∈ pts, inRect r v) :
+    clipPolyline r pts = [pts] :=
+  Clip.clipPolyline_inside r pts hlen hin
+
+/-- A baseline that does not touch the region is never placed: if no point of any of its segments lies in the
+rectangle, there is no piece. -/
+theorem clip_untouched_empty (r : Rect) (pts : List Pt)
+    (hout : ∀ (i : Nat) (p q : Pt) (t : Rat), pts[i]? = some p → pts[i + 1]? = some q → 0 ≤ t → t ≤ 1 → ¬ inRect r (lerp p q t)) :
+    clipPolyline r pts = [] :=
+  Clip.clipPolyline_untouched r pts hout
+
+/-- Every piece has at least two vertices (a start and an end). -/
+theorem clip_piece_length (r : Rect) (pts : List Pt) : ∀ piece ∈ clipPolyline r pts, 2 ≤ piece.length :=
+  Clip.clipPolyline_length r pts
+
+example : clipPolyline ⟨0, 0, 10, 10⟩ [(-5, 5), (5, 5), (5, 20), (8, 20), (8, 5)] =
+    [[(0, 5), (5, 5), (5, 10)], [(8, 10), (8, 5)]] := by decide +kernel
 
 end C11
